@@ -82,8 +82,8 @@ class StilFile:
                     scan_out_inversion.append(inversion)
             scan_maps[chain[0]] = scan_map
             scan_maps[chain[-1]] = scan_map
-            scan_inversions[chain[0]] = logic.mvarray(scan_in_inversion)[0]
-            scan_inversions[chain[-1]] = logic.mvarray(scan_out_inversion)[0]
+            scan_inversions[chain[0]] = logic.mvarray(scan_in_inversion)
+            scan_inversions[chain[-1]] = logic.mvarray(scan_out_inversion)
         return interface, pi_map, po_map, scan_maps, scan_inversions
 
     def tests(self, circuit):
